@@ -414,7 +414,7 @@ pub(crate) fn hook_dropped(
     }
     crate::verif_emit!(
         "ReplyDropped",
-        "\"reason\":\"{}\",\"peer\":\"{}\",\"type\":{},\"code\":{},\"id\":{},\"sn\":{},\"data\":\"{}\",\"waiters\":{}",
+        "\"reason\":\"{}\",\"peer\":\"{}\",\"type\":{},\"code\":{},\"id\":{},\"sn\":{},\"data\":\"{}\",\"waiters\":{},\"now_ms\":{}",
         reason,
         peer.map(|p| p.to_string()).unwrap_or_default(),
         message.map(|m| m.type_id() as i64).unwrap_or(-1),
@@ -422,7 +422,8 @@ pub(crate) fn hook_dropped(
         request.map(|r| r.identifier as i64).unwrap_or(-1),
         request.map(|r| r.sequence_number as i64).unwrap_or(-1),
         request.map(|r| hex(&r.data[..r.data.len().min(64)])).unwrap_or_default(),
-        waiters.map(|w| w as i64).unwrap_or(-1)
+        waiters.map(|w| w as i64).unwrap_or(-1),
+        ms(tokio::time::Instant::now())
     );
 }
 
@@ -442,7 +443,7 @@ pub(crate) fn hook_routed(
     }
     crate::verif_emit!(
         "ReplyRouted",
-        "\"client\":{},\"peer\":\"{}\",\"type\":{},\"code\":{},\"id\":{},\"sn\":{},\"data\":\"{}\",\"queued\":{},\"waiters\":{}",
+        "\"client\":{},\"peer\":\"{}\",\"type\":{},\"code\":{},\"id\":{},\"sn\":{},\"data\":\"{}\",\"queued\":{},\"waiters\":{},\"now_ms\":{}",
         client,
         peer,
         type_id,
@@ -451,6 +452,7 @@ pub(crate) fn hook_routed(
         request.sequence_number,
         hex(&request.data[..request.data.len().min(64)]),
         still_waiting,
-        waiters
+        waiters,
+        ms(tokio::time::Instant::now())
     );
 }
